@@ -48,11 +48,16 @@ class SharedLog:
 class ScriptedProcess:
     """Process for the standard engine: returns the scripted terminal values one by one."""
 
-    def __init__(self, values, dim=1, rate=0.03, x0=0.0, maturity=1.0):
+    def __init__(self, values, dim=1, rate=0.03, x0=0.0, maturity=1.0, log_representation=False):
         from rpylib.process.process import ProcessRepresentation
 
         self.model = ScriptedModel(dim, rate)
         self.process_representation = ProcessRepresentation.IDENDITY
+        self.log_representation = bool(log_representation)
+        if log_representation:
+            # the process simulates the logarithm of the underlying (the scripted values stay the terminal values of the underlying itself)
+            self.process_representation = ProcessRepresentation.LOG
+            self.model.process_representation = ProcessRepresentation.LOG
         self.values = [np.atleast_1d(np.asarray(v, dtype=float)) for v in values]
         self.log = SharedLog()
         self._next = 0
@@ -87,6 +92,8 @@ class ScriptedProcess:
         i = self._next
         self._next += 1
         v = self.values[i]
+        if getattr(self, "log_representation", False):
+            v = np.log(v)
         self.log.events.append(("sample", i))
         times = np.array([0.0, self.maturity])
         if self.dimension() == 1:
